@@ -163,6 +163,7 @@ type c03Obs struct {
 	BHost    string      `json:"bhost"` // port replaced by PORT
 	BHeaders [][2]string `json:"bheaders"`
 	BBody    []byte      `json:"bbody"`
+	BBody2   []byte      `json:"bbody2"` // body of the second complete request (a retry)
 	BKind    string      `json:"bkind"`
 	BDec     []byte      `json:"bdec"`
 	BDecOK   bool        `json:"bdecOK"`
@@ -523,6 +524,9 @@ func c03ObsOf(r c07Resp, seen []c07Seen, backendAddr string) (obs c03Obs) {
 			continue
 		}
 		obs.BCount++
+		if obs.BCount == 2 {
+			obs.BBody2 = append([]byte{}, s.Body...)
+		}
 		if obs.BCount > 1 {
 			continue
 		}
